@@ -595,11 +595,79 @@ func run(e *core.Env) {
 			}
 			data := withAppendix(parser, orig, encodeChain(cp, ctx, rs))
 			if data != nil && len(data) < 60000 {
+				// First with one record altered after signing - anywhere in the chain, mostly deep
+				// down: every record of a chain is verified, however long the chain is.
+				if len(cp) >= 3 {
+					j := 1 + tp.Intn(len(cp)-1)
+					if tp.Chance(2, 3) {
+						j = len(cp) - 1 - tp.Intn(min(3, len(cp)-1))
+					}
+					good := encodeChain(cp, ctx, rs)
+					bad := make([]layer, len(cp))
+					copy(bad, cp)
+					bad[j].at.Delay += uint16(1 + tp.Intn(100))
+					// re-sign every level above j (their signers go along with it), keep j's signature
+					rs2 := map[int]*m.Address{}
+					for i := 0; i < j; i++ {
+						rs2[i] = rs[i]
+					}
+					if gl, ok := parseChain(good); ok && len(gl) == len(cp) {
+						for i := j; i < len(cp); i++ {
+							bad[i].sig = gl[i].sig
+						}
+						reject("long-chain record altered after signing", lPV, withAppendix(parser, orig, encodeChain(bad, ctx, rs2)), len(cp))
+						e.Probe("long_chain_with_altered_deep_record")
+					}
+				}
 				inject(lPV, data)
 				ms.CheckPanics("worker-panic")
 				e.Probe("long_chain_presented")
 				if len(cp) >= 99 {
 					e.Probe("chain_at_depth_limit")
+				}
+				// Whatever V made of it: a route to this origin over P lists exactly the routers of
+				// one chain that was really signed for it - never a shortened or partial one.
+				legit := map[string]bool{}
+				addLegit := func(ls []layer) {
+					var b strings.Builder
+					for i := 0; i < len(ls); i++ { // outermost record = V's peer = first relay on the way out
+						fmt.Fprintf(&b, "%s,", ls[i].at.Router.IP)
+					}
+					legit[b.String()] = true
+				}
+				addLegit(cp)
+				for _, c := range captured {
+					if f2, err := mesh.ParseCrossing(parser, c); err == nil {
+						if f2.SrcIP() == origin {
+							if ls, ok := parseChain(f2.AppendixData()); ok {
+								addLegit(ls)
+							}
+						}
+						f2.ReturnToPool()
+					}
+				}
+				for _, en := range V.Router.Table().VerifEntries() {
+					if en.DstIP != origin || en.NextHop != P.IP || en.Source != m.RouteSourceGossip {
+						continue
+					}
+					hops := en.Path.Hops
+					if len(hops) > 0 && hops[0].Router == V.IP {
+						hops = hops[1:]
+					}
+					if len(hops) > 0 && hops[len(hops)-1].Router == origin {
+						hops = hops[:len(hops)-1]
+					}
+					var b strings.Builder
+					relays := len(hops)
+					for _, h := range hops {
+						fmt.Fprintf(&b, "%s,", h.Router)
+					}
+					if !legit[b.String()] {
+						e.Fail("route-lists-other-routers-than-signed/long-chain", "after an announcement with %d signed hop records V holds a route to its origin over P that lists %d relays - not the routers of any chain signed for this origin (route: %s; chains: %v)", len(cp), relays, b.String(), legit)
+					}
+					if relays == len(cp) {
+						e.Probe("long_chain_accepted_as_route")
+					}
 				}
 			}
 		}
